@@ -273,6 +273,7 @@ def run_check(prop, tier):
 
     # determinism self-test: the same runs, fresh interpreter, another PYTHONHASHSEED, one worker
     det = {"runs_compared": 0, "mismatches": 0, "how": "skipped"}
+    det_failed = []
     n_det = min(cfg.get("det_sample", 64), len(tot["digests"]))
     if n_det:
         other = _fresh_digests(prop, base_seed, n_det, 12345)
@@ -280,8 +281,7 @@ def run_check(prop, tier):
         mism = [i for i, d in other if mine.get(i) not in (d, None) and d != "inconclusive"]
         det = {"runs_compared": len(other), "mismatches": len(mism),
                "how": "fresh interpreter, PYTHONHASHSEED=12345, sequential vs %d forked workers" % n_workers()}
-        if mism:
-            raise HarnessError("determinism self-test failed for run indices %r" % (mism[:10],))
+        det_failed = mism[:10]
 
     violations, known_hits, lines = report_failures(sim, tot["failures"], cfg.get("min_wall", 60.0))
     for ln in lines:
@@ -348,6 +348,10 @@ def run_check(prop, tier):
               cov["runs_per_hour"], (" ; %d chunks skipped (wall budget)" % skipped) if skipped else ""))
     if stuck:
         print("WARNING probes stuck at zero: %s" % ", ".join(stuck))
+    if det_failed:
+        # reported after the batch summary so that what the batch found is not lost; nothing a nondeterministic
+        # run reports is trusted, hence still a harness error (typical cause: /repo edited while the check ran)
+        raise HarnessError("determinism self-test failed for run indices %r" % (det_failed,))
     if tot["runs"] == 0:
         raise HarnessError("no run completed")
     if len(tot["nontrivial"]) < 2:
